@@ -13,6 +13,8 @@ Decided from the source, for all operand counts n in N (interval arithmetic):
       that is returned; the check returns Err exactly when the predicate is false;
   K5  no function between the entry point and the dispatcher discards a Result of
       the crate's error type (ok(), unwrap_or*, is_err …): the rejection survives;
+  K6  operator functions are invoked only through their table entries, or by another
+      operator function forwarding its own operand list with an arity set inside the callee's;
   K4  the unbracketed operand becomes a one-element vector holding the operand
       itself, only under the unary-acceptance edge; the bracketed form is the
       array's elements in order; both meet at the same length check.
@@ -353,6 +355,7 @@ def run(ctx):
             rr = cb2.trace(0) if cb2 else ("?",)
             is_err = rr[0] == "agg" and rr[1].get("variant") == "Err"
         k5_error_discipline(ctx, facts, disp, cfg)
+        k6_only_through_the_tables(ctx, facts, tables, cfg)
         ctx.check(is_err, "K4.reject", "non-array operand of a non-unary operator is an error (%s)" % cfg,
                   "the rejection edge returns %s" % show_expr(r), where=b.where(usw[0]), fn=b.key)
 
@@ -360,14 +363,73 @@ def run(ctx):
 def k5_error_discipline(ctx, facts, disp, cfg):
     """K5 — the arity error is not swallowed between the dispatcher and the entry point."""
     from . import errdisc
+    from .roles import Roles
+    roles = Roles(facts)
     scope = errdisc.callers_closure(facts, [disp.body.key])
+    # plus everything the value parser can run before evaluation starts (helpers of the parse included)
+    cg, _ = facts.callgraph()
+    stop = set(roles.evaluators) | set(roles.op_fns)
+    st = [roles.value_parser.key]
+    pscope = set()
+    while st:
+        k = st.pop()
+        if k in pscope or k in stop:
+            continue
+        pscope.add(k)
+        st.extend(cg.get(k, ()))
+    scope = scope | pscope
     ctx.count("functions on the parse chain (%s)" % cfg, len(scope))
     bad = errdisc.dropped_errors(facts, scope)
     for b, bi, full in bad:
         ctx.fail("K5.error-dropped", "%s@%s" % (b.key.split("::", 1)[1], full.rsplit("::", 1)[1]),
                  "the parse chain discards an error of the crate's error type with %s — a rejected operand count would surface as a value" % full, where=b.where(bi), fn=b.key)
-    if not bad:
-        ctx.ok("K5.error-dropped", "no error-dropping call on the parse chain (%s)" % cfg, nontrivial=True, sample={"functions": sorted(scope)[:12]})
+    conv = errdisc.err_to_ok(facts, scope)
+    for b, bi, si, what in conv:
+        ctx.fail("K5.error-to-success", "%s" % b.key.split("::", 1)[1], "the parse chain turns an error of the crate's error type into a success: %s — a rejected operand shape or count would surface as a value" % what, where=b.where(bi, si), fn=b.key)
+    if not bad and not conv:
+        ctx.ok("K5.error-dropped", "no error-dropping call and no error-to-success conversion on the parse chain (%s)" % cfg, nontrivial=True, sample={"functions": sorted(scope)[:12]})
+
+
+def k6_only_through_the_tables(ctx, facts, tables, cfg):
+    """K6 — an operator function is reached only through its table entry (whose arity was checked),
+    or from another table function that forwards its own, at least as strictly checked, operand list."""
+    from . import panic as PN
+    from .roles import Roles
+    roles = Roles(facts)
+    arity = PN.Arity(facts, roles)
+    tfns = {}
+    for t in tables:
+        for e in t.entries:
+            tfns.setdefault(e.fn_key, []).append(e)
+    n = 0
+    for b in facts.fns():
+        root = b.key
+        while "::{closure#" in root and root not in tfns:
+            root = root.rsplit("::{closure#", 1)[0]
+        for bi, t in b.calls():
+            c = callee_of(t)
+            if not c or not c["local"] or c["key"] not in tfns:
+                continue
+            n += 1
+            callee_entries = tfns[c["key"]]
+            lo_c = min((e.accepted() or (0, 0))[0] for e in callee_entries)
+            hi_c = max((e.accepted() or (0, 0))[1] for e in callee_entries)
+            ok = False
+            why = "called from %s, which is not an operator function" % b.key.split("::", 1)[1]
+            if root in tfns:
+                # the caller's own operand vector is passed on unchanged and its arity set is within the callee's
+                cb = facts.body(c["key"])
+                vec_ok = False
+                for a in t["args"]:
+                    v = arity.vec_of(b, a)
+                    if v is not None:
+                        vec_ok = v[0] >= lo_c and v[1] <= hi_c
+                        why = "forwards an operand list of %s..%s operands to an operator accepting %s..%s" % (v[0], v[1], lo_c, hi_c)
+                ok = vec_ok
+            ctx.check(ok, "K6.through-table", "%s ← %s (%s)" % (c["key"].split("::", 1)[1], b.key.split("::", 1)[1], cfg),
+                      "the operator function %s is invoked directly (%s): its operand count has not been checked against its descriptor" % (c["path"], why), where=b.where(bi), fn=b.key, nontrivial=True,
+                      sample={"callee": c["path"], "caller": b.key})
+    ctx.count("direct calls of operator functions (%s)" % cfg, n)
 
 
 def vec_macro_elems(body, d):
